@@ -66,16 +66,12 @@ class Config(CIBaseModel):
 
     @model_validator(mode='after')
     def normalize_search_paths(self):
-        """Resolve search paths and initialize the global configuration
-        singleton."""
+        """Check that no configuration is active yet and resolve search
+        paths."""
 
-        global _config
         if _config is not None:
             raise RuntimeError('Config has already been initialized.')
-        try:
-            self._normalize_path()
-        finally:
-            _config = self
+        self._normalize_path()
 
         return self
 
@@ -99,6 +95,12 @@ class Config(CIBaseModel):
                 'weather_data_dir',
                 Path(self.file_location(self.weather.weather_data_dir)).resolve(),
             )
+
+        # All validation has succeeded: only now does this instance become
+        # the global configuration singleton. (A load that fails part-way must
+        # leave the system unconfigured, so that a later valid load works.)
+        global _config
+        _config = self
         return self
 
     def file_location(self, f: Path | str) -> Path:
